@@ -305,6 +305,75 @@ func genC20(e *emitter, tier string, seed uint64) {
 		e.note("flow." + kind + "." + strings.Fields(res)[0])
 		e.note(fmt.Sprintf("utxos.%d", nU))
 	}
+	// tight funding: what is left for the fee sweeps across the quoted fee, in steps smaller than one unlocking script,
+	// so that "covers the unsigned size but not the signed size" and "covers the fee but not a change output" are hit
+	step := 7
+	if !quick {
+		step = 2
+	}
+	for _, kind := range []string{"list1", "list2", "bid1", "bid2"} {
+		for _, fqs := range []string{"500/1000,1/4", "1/1,1/1", "5/100,5/100"} {
+			seller, buyer := genKey(r), genKey(r)
+			price := uint64(1000 + r.n(5000))
+			ou := mkU(seller, 1, p2pkhOf(seller))
+			if kind[:4] == "list" && r.chance(50) {
+				ou = mkU(seller, 1, insLock(seller))
+			}
+			variant := kind[len(kind)-1:]
+			var fixed []ordUTXO
+			if variant == "1" {
+				fixed = []ordUTXO{mkU(buyer, price+1000, p2pkhOf(buyer))}
+			} else {
+				fixed = []ordUTXO{mkU(buyer, 600, p2pkhOf(buyer)), mkU(buyer, 400, p2pkhOf(buyer)), mkU(buyer, price, p2pkhOf(buyer))}
+			}
+			adj := mkU(buyer, 10000000, p2pkhOf(buyer))
+			build := func(adjSats uint64) []string {
+				adj.u.Satoshis = adjSats
+				var us []string
+				for _, u := range append(append([]ordUTXO{}, fixed...), adj) {
+					us = append(us, descOrdUTXO(u))
+				}
+				if kind[:4] == "list" {
+					return []string{variant, fqs, descOrdUTXO(ou), fmt.Sprintf("%d:%s", price, hexE(p2pkhOf(seller))), strings.Join(us, "|"),
+						hexE(p2pkhOf(buyer)), hexE(p2pkhOf(buyer)), hexE(p2pkhOf(buyer))}
+				}
+				return []string{variant, fqs, descOrdUTXO(ou), fmt.Sprint(price), strings.Join(us, "|"),
+					hexE(p2pkhOf(buyer)), hexE(p2pkhOf(buyer)), hexE(p2pkhOf(buyer)), hexE(p2pkhOf(seller)), ordPlaceholderHex, hexE(funnyScript())}
+			}
+			op := "C20." + kind[:len(kind)-1]
+			dry := executors[op](build(10000000))
+			f := strings.Fields(dry)
+			if f[0] != "ok" {
+				e.note("tight.dry-failed")
+				continue
+			}
+			var txd string
+			for _, x := range f {
+				if strings.HasPrefix(x, "tx=") {
+					txd = x[3:]
+				}
+			}
+			t := parseDesc(txd)
+			if len(t.Outputs) < 4 {
+				e.note("tight.no-change-in-dry-run")
+				continue
+			}
+			var in uint64 = 10000000 + 1
+			for _, u := range fixed {
+				in += u.u.Satoshis
+			}
+			change := t.Outputs[3].Satoshis
+			fee := in - t.TotalOutputSatoshis()
+			base := 10000000 - change - fee // with this much in the adjustable output nothing at all is left for the fee
+			for x := int64(fee) - 260; x <= int64(fee)+40; x += int64(step) {
+				if x < 0 || int64(base)+x < 1 {
+					continue
+				}
+				res := e.run(op, build(uint64(int64(base)+x))...)
+				e.note("tight." + kind + "." + strings.Fields(res)[0])
+			}
+		}
+	}
 	// inscriptions: content types and payloads at the push-length boundaries
 	sizes := []int{0, 1, 2, 74, 75, 76, 77, 254, 255, 256, 257, 1000, 65535, 65536, 65537}
 	for n := 0; n < nInsc; n++ {
